@@ -40,6 +40,14 @@ FAMILIES = {
     "kern-divergent": dict(n_axes=2, layout="corners", n_glyphs=16, composites=0.0, kern=dict(pairs=40, divergent=0.8, partial=0.2)),
     "kern-many": dict(n_axes=1, layout="onaxis", n_glyphs=40, composites=0.0, kern=dict(pairs=400, exceptions=0.1)),
     "kern-intermediate": dict(n_axes=1, layout="intermediate", n_glyphs=12, composites=0.0, kern=dict(pairs=25, divergent=0.5)),
+    "kern-nogroups": dict(n_axes=1, layout="onaxis", n_glyphs=10, composites=0.0, kern=dict(pairs=30, groups=False, partial=0.3)),
+    "kern-exceptions": dict(n_axes=2, layout="onaxis", n_glyphs=14, composites=0.0, kern=dict(pairs=40, exceptions=0.8, divergent=0.5, partial=0.2)),
+    "kern-3x3": dict(n_axes=2, layout="mixed", n_glyphs=12, composites=0.0, kern=dict(pairs=30, divergent=0.6, partial=0.3)),
+    "marks-static": dict(n_axes=0, n_glyphs=8, composites=0.0, marks=dict(n_groups=2)),
+    "marks-var1": dict(n_axes=1, layout="onaxis", n_glyphs=8, composites=0.0, marks=dict(n_groups=3, n_marks=4)),
+    "marks-var2": dict(n_axes=2, layout="corners", n_glyphs=8, composites=0.0, marks=dict(n_groups=2, n_ligs=2, mkmk=0.9)),
+    "marks-intermediate": dict(n_axes=1, layout="intermediate", n_glyphs=8, composites=0.0, sparse_layers=1, marks=dict(n_groups=3, n_ligs=2)),
+    "marks-multi": dict(n_axes=1, layout="onaxis", n_glyphs=10, composites=0.0, marks=dict(n_groups=4, n_marks=5, multi_mark=0.6, mkmk=0.7)),
 }
 
 BY_PROPERTY = {
@@ -52,6 +60,8 @@ BY_PROPERTY = {
     "C08": ["c08-1axis", "c08-2axis", "c08-3axis-int", "c08-1axis"],
     "C17": ["c17-special-static", "c17-special-var", "var2-nested-xform", "c17-special-static", "var1-vertical", "c06-partial-notdef-mid", "kern-static"],
     "C12": ["c12-nested-scale", "c12-nested-rotate", "c12-nonexport-sparse", "c12-mixed-static", "c12-overflow", "var2-nested-xform"],
+    "C09": ["kern-static", "kern-var1", "kern-divergent", "kern-many", "kern-intermediate", "kern-nogroups", "kern-exceptions", "kern-3x3"],
+    "C10": ["marks-static", "marks-var1", "marks-var2", "marks-intermediate", "marks-multi"],
     "C14": ["var1-noorder", "var2-mixed-sparse", "var1-mixedglyphs", "kern-var1", "kern-intermediate", "kern-divergent"],
 }
 
@@ -60,10 +70,17 @@ def make(family, seed, index):
     rng = random.Random(f"{family}:{seed}:{index}")
     knobs = dict(FAMILIES[family])
     kern = knobs.pop("kern", None)
+    marks = knobs.pop("marks", None)
+    if marks:
+        n = knobs.get("n_glyphs", 8)
+        knobs["ext_glyph_names"] = M.MARK_NAMES[:marks.get("n_marks", 3)] + M.LIG_NAMES[:marks.get("n_ligs", 1)] + rng.sample(M.LATIN, n)
+        knobs["n_glyphs"] = len(knobs["ext_glyph_names"])
     post = knobs.pop("post", None)
     m = M.build(rng, family=family.replace("-", ""), **knobs)
     if kern:
         M.add_kerning(m, rng, **kern)
+    if marks:
+        M.add_anchors(m, rng, **marks)
     if post:
         post(m, rng)
     m["family_id"] = family
